@@ -282,7 +282,11 @@ impl Family for Diff {
                 if stats.evals == 0 && fs.is_empty() {
                     out.skipped = Some("all-inputs-trap-or-fuel".into());
                 }
-                if let Some(first) = fs.first() {
+                if let Some(first) = fs.first()
+                    && crate::work::is_env_artifact(&first.msg)
+                {
+                    out.skipped = Some("env:jit-relocation-out-of-range".into());
+                } else if let Some(first) = fs.first() {
                     // shrink, then classify
                     let class = finding_class(&first.kind).to_string();
                     let inputs2: Vec<Vec<u64>> = match &first.input {
